@@ -3,6 +3,11 @@
 usage: trymut.py <file> <old> <new> [--tests] <Cxx> [<Cxx> ...]
 Never leaves /repo modified."""
 import subprocess, sys, os
+import fcntl as _fcntl
+_lockf = open("/dev/shm/mscript-verif-repo.lock", "a+")
+_fcntl.flock(_lockf, _fcntl.LOCK_EX)      # held until this tool exits: /repo is patched in between
+import os as _os
+_os.environ["MSCRIPT_VERIF_LOCK_HELD"] = "1"
 args = sys.argv[1:]
 f, old, new = args[0], args[1], args[2]
 rest = args[3:]
